@@ -188,7 +188,27 @@ def gen_variants(rng, n):
                 w.text("#>REBOOT")
             elif r < 0.4:
                 w.text("##CRC: 0x0BADF00D")
-        out.append(w.value())
+        text = w.value()
+        if i % 3 == 0:
+            # the start-of-tag marker (FE) is optional for the importer - a group is whatever stands in front of an end-of-tag
+            # marker (FF) - and an end marker with nothing in front of it closes nothing: drop some FE lines, double some FF lines
+            ls = text.split("\n")
+            out_ls = []
+            for l in ls:
+                if l.startswith(":") and l[5:7] == "FE" and rng.random() < 0.5:
+                    continue
+                out_ls.append(l)
+                if l.startswith(":") and l[5:7] == "FF" and rng.random() < 0.3:
+                    out_ls.append(l)
+            text = "\n".join(out_ls)
+        out.append(text)
+    # one section over two pages, the second page group without its FE line (what a seeded parser change turned into two components)
+    w = Writer()
+    w.text("##Firmware: 1100 ID-ENGINE 1.07.02 generated")
+    w.text("##Bf3Update: 1")
+    w.text("#>SELECT_IF PROTOCOL=*")
+    w.data(0x84, gen_image(rng, PAGE + 40)[PAGE - 48:], [16], start=PAGE - 48)
+    out.append("\n".join(l for k, l in enumerate(w.value().split("\n")) if not (l.startswith(":") and l[5:7] == "FE" and k > 4)))
     return out
 
 
